@@ -63,6 +63,8 @@ class Root:
     nc: Optional[Child] = field(default=None, metadata={"type": "Element", "nillable": True})
     nd: Optional[Child] = field(default=None, metadata={"type": "Element", "nillable": True})
     ne: list[NilC] = field(default_factory=list, metadata={"type": "Element"})
+    av: Optional[object] = field(default=None, metadata={"type": "Element"})
+    aw: Optional[object] = field(default=None, metadata={"type": "Element"})
 '''
 INST_RICH = {"__cls__": "Root", "fields": {
     "ident": {"__p__": "int", "v": -42}, "kind": {"__p__": "str", "v": "a b<&\u00e9"},
@@ -82,7 +84,8 @@ INST_RICH = {"__cls__": "Root", "fields": {
     "nl": [{"__p__": "str", "v": "a"}, {"__p__": "str", "v": "b c"}], "nn": None,
     "nc": {"__cls__": "Child", "fields": {"value": {"__p__": "int", "v": 0}, "flag": {"__p__": "bool", "v": True}, "tags": []}},
     "nd": None,
-    "ne": [{"__cls__": "NilC", "fields": {"w": {"__p__": "str", "v": "x"}, "a": {"__p__": "int", "v": 3}}}]}}
+    "ne": [{"__cls__": "NilC", "fields": {"w": {"__p__": "str", "v": "x"}, "a": {"__p__": "int", "v": 3}}}],
+    "av": {"__p__": "str", "v": " any  text "}, "aw": {"__p__": "str", "v": ""}}}
 WITNESS_NIL = G.HEADER + '''
 @dataclass
 class B:
@@ -220,7 +223,8 @@ Import ListNotations.
    group of an int list, an optional str and a class list, nillable int / bool fields holding the falsy
    values 0 / False, a nillable str list and a nillable str field holding None, written
    <nn xsi:nil="true"/>, a nillable field of class type holding an instance with content and another one
-   holding None, a list of instances with content of a nillable class), class namespace urn:a, Meta.name *)
+   holding None, a list of instances with content of a nillable class, two xs:anyType elements holding a str
+   and the empty str), class namespace urn:a, Meta.name *)
 '''
     txt += D("u_rich", "universe", rich["universe"])
     txt += D("root_rich", "cls", rich["root"])
@@ -354,6 +358,7 @@ GUARD_PREDS = {
     "in_guard_xsi": "fun k => negb (in_guard_w k && uses_xsi_type k)",
     "in_guard_nillable": "fun k => negb (in_guard_w k && uses_nillable (rc_universe k))",
     "in_guard_nillable_class": "fun k => negb (in_guard_w k && uses_nillable_class (rc_universe k))",
+    "in_guard_anytype": "fun k => negb (in_guard_w k && uses_anytype (rc_universe k) (rc_cls k))",
     "guard-oracle": "oracle_in_guard",
     "corr-generate-in-guard": "fun k => negb (in_guard_w k) || gen_agree k",
     "corr-parse-in-guard": "fun k => negb (in_guard_w k) || parse_agree k",
@@ -404,6 +409,7 @@ def guard_layer(ck, jobs, stats):
     stats["guard_inside_with_subclass_instance"] = len(bad["in_guard_xsi"])
     stats["guard_inside_with_nillable_field"] = len(bad["in_guard_nillable"])
     stats["guard_inside_with_nillable_class"] = len(bad["in_guard_nillable_class"])
+    stats["guard_inside_with_anytype_element"] = len(bad["in_guard_anytype"])
     stats["guard_inside_share"] = round(len(inside) / max(1, len(terms)), 3)
     stats["guard_skipped"] = skipped
     for cls in ("guard-oracle", "corr-generate-in-guard", "corr-parse-in-guard", "guard-theorem-instance",
@@ -873,7 +879,7 @@ def run(ck: Check):
     ck.cov["proved_slice"] = ("C01_roundtrip_S4: Attribute / Element / Text fields of primitive, enum or exact class type, optional, default, list, "
                               "tokens, list of token lists, nested classes (recursive class graphs, subclass instances with xsi:type), wrappers, sequence groups, "
                               "QName values, nillable fields (simple type: None or non-empty values; class type: None or instances with content), nillable classes "
-                              "(instances with content), namespaces; infoset "
+                              "(instances with content), xs:anyType elements holding a str, namespaces; infoset "
                               "level, every reading (attribute order, prefix maps, indentation) and, through C03, the printed document; everything else "
                               "(wrapped lists inside a sequence group, empty texts and instances without content in nillable positions, wildcards, compound fields, unions, below the "
                               "infoset) is covered by correspondence + oracle only")
